@@ -219,6 +219,8 @@ def check_operator(A, rng=None, want_views=False):
        adjoint          realmat(adj) == realmat(eval)^T   (Re<Ax,y> = Re<x,A^H y> on all basis pairs)
        adj-clinear      adj is C-linear when both spaces are complex
        out-size         outputs have the declared sizes
+       eval-faithful    A(x) has the declared output dtype and shape      (hypothesis `Faithful` of C01_adj_total)
+       adj-faithful     A.adj(y) has the declared input dtype and shape
     """
     in_shape, out_shape = norm_shape(A.input_shape), norm_shape(A.output_shape)
     in_dt, out_dt = np.dtype(A.input_dtype), np.dtype(A.output_dtype)
@@ -251,6 +253,9 @@ def check_operator(A, rng=None, want_views=False):
     if DA.n_out != flat_size(out_shape):
         fails.append(("out-size", f"eval returned {DA.n_out} entries, declared output_shape {out_shape}"))
         return res
+    # hypothesis `Faithful` of theorem C01_adj_total, eval half: the declared output dtype and shape are returned
+    if isinstance(DA.out_dtype, tuple) or np.dtype(DA.out_dtype) != out_dt or norm_shape(DA.out_shape) != out_shape:
+        fails.append(("eval-faithful", f"eval returns {DA.out_dtype} {DA.out_shape}, declared {out_dt} {out_shape}"))
     if DA.clinear_defect() > tol * (1 + np.max(np.abs(DA.R), initial=0.0)):
         fails.append(("eval-clinear", f"defect {DA.clinear_defect():.3e}"))
     # adj on conforming inputs: declared output dtype and shape
@@ -267,6 +272,9 @@ def check_operator(A, rng=None, want_views=False):
     if DB.n_out != flat_size(in_shape):
         fails.append(("out-size", f"adj returned {DB.n_out} entries, declared input_shape {in_shape}"))
         return res
+    # `Faithful`, adj half: adj returns an array of the declared input dtype and shape
+    if isinstance(DB.out_dtype, tuple) or np.dtype(DB.out_dtype) != in_dt or norm_shape(DB.out_shape) != in_shape:
+        fails.append(("adj-faithful", f"adj returns {DB.out_dtype} {DB.out_shape}, declared input {in_dt} {in_shape}"))
     # the dtype eval really returns must be accepted too (G.adj(G(x)))
     if rng is not None:
         try:
